@@ -1284,6 +1284,14 @@ def _dict_decorators() -> Dict[str, Callable[[_FN], _FN]]:
         _tidy(setdefault)
         return setdefault
 
+    def __ior__(fn):
+        def __ior__(self, other):
+            self.update(other)
+            return self
+
+        _tidy(__ior__)
+        return __ior__
+
     def update(fn):
         def update(self, __other=NO_ARG, **kw):
             if __other is not NO_ARG:
